@@ -149,15 +149,21 @@ def load_theory_cache(filename, username="master"):
         return cache
 
     # Load all required macros and methods for this file.
-    # Make table for this later.
-    if filename == 'logic':
-        from prover import z3wrapper
-    if filename == 'expr':
-        from data import expr
-    if filename == 'real':
-        from data import real
-    if filename == 'hoare':
-        from imperative import imp
+    # Make table for this later. Importing these modules may load
+    # theories as a side effect, which must not replace the theory
+    # currently being built by a caller.
+    prev_thy = theory.thy
+    try:
+        if filename == 'logic':
+            from prover import z3wrapper
+        if filename == 'expr':
+            from data import expr
+        if filename == 'real':
+            from data import real
+        if filename == 'hoare':
+            from imperative import imp
+    finally:
+        theory.thy = prev_thy
 
     # Load all imported theories
     depend_list = get_import_order(cache['imports'], username)
